@@ -170,7 +170,8 @@ class RollingAggregation(Blockwise):
 
     @functools.cached_property
     def _meta(self):
-        return self.frame._meta
+        # Same schema as the RollingReduction this was lowered from
+        return make_meta(_rolling_agg(self.frame._meta, *self.operands[1:]))
 
 
 class RollingCount(RollingReduction):
